@@ -50,10 +50,13 @@ func VH_C06_otlp() {
 		wants = append(wants, w)
 	}
 	svc := vrt.String("service-name", 1)
-	body := &trace.TracesData{ResourceSpans: []*trace.ResourceSpans{{
-		Resource:   &resource.Resource{Attributes: []*v11.KeyValue{{Key: "service.name", Value: vsStr(svc)}}},
-		ScopeSpans: []*trace.ScopeSpans{{Spans: spans}},
-	}}}
+	rs := &trace.ResourceSpans{ScopeSpans: []*trace.ScopeSpans{{Spans: spans}}}
+	if vrt.Bool("resource-present") {
+		rs.Resource = &resource.Resource{Attributes: []*v11.KeyValue{{Key: "service.name", Value: vsStr(svc)}}}
+	} else {
+		svc = "OTLPResourceNoServiceName" // the documented default when no service name attribute exists
+	}
+	body := &trace.TracesData{ResourceSpans: []*trace.ResourceSpans{rs}}
 	pd := &parserDoer{ctx: &ParserCtx{bodyObject: body}, payloadType: 2}
 	pd.resetSpans()
 	dec := &OTLPDecoder{ctx: pd.ctx}
